@@ -176,6 +176,13 @@ func (st *n7st) obs(panicked bool) string {
 	return sb.String()
 }
 
+// n7pool: a byte buffer the CALLER keeps and re-uses for every from-raw of bytes: from-raw copies, so writing the
+// next content into it must never show in a value filled earlier (half of the bytes ops go through it)
+var n7pool = make([]byte, 0, 8)
+var n7flip bool
+
+func n7viaPool() bool { n7flip = !n7flip; return n7flip }
+
 // n7set stores the new interface field nv into value v (Set*)
 func n7set(v Value, nv string) {
 	switch {
@@ -193,7 +200,12 @@ func n7set(v Value, nv string) {
 		v.SetStr(nv[3:])
 	case strings.HasPrefix(nv, "b"):
 		b, _ := hex.DecodeString(nv[1:])
-		v.SetEmptyBytes().FromRaw(b)
+		if n7viaPool() {
+			n7pool = append(n7pool[:0], b...)
+			_ = v.FromRaw(n7pool) // Value.FromRaw([]byte) must copy
+		} else {
+			v.SetEmptyBytes().FromRaw(b)
+		}
 	}
 }
 
@@ -213,7 +225,12 @@ func n7put(m Map, key string, nv string) {
 		m.PutStr(key, nv[3:])
 	case strings.HasPrefix(nv, "b"):
 		b, _ := hex.DecodeString(nv[1:])
-		m.PutEmptyBytes(key).FromRaw(b)
+		if n7viaPool() {
+			n7pool = append(n7pool[:0], b...)
+			_ = m.PutEmpty(key).FromRaw(n7pool)
+		} else {
+			m.PutEmptyBytes(key).FromRaw(b)
+		}
 	}
 }
 
@@ -406,13 +423,19 @@ func n7ids(av *otlpcommon.AnyValue, where string, seen map[uintptr]string, depth
 			}
 		}
 	case *otlpcommon.AnyValue_BytesValue:
-		return n7note(seen, w, where+":bytes")
+		if d := n7note(seen, w, where+":bytes"); d != "" {
+			return d
+		}
+		if cap(w.BytesValue) > 0 {
+			return n7note(seen, &w.BytesValue[:1][0], where+":byte[]")
+		}
 	}
 	return ""
 }
 
 func (st *n7st) aliasing() string {
 	seen := map[uintptr]string{}
+	n7note(seen, &n7pool[:1][0], "raw-input")
 	for r, v := range st.roots {
 		if d := n7ids(v.getOrig(), fmt.Sprint("r", r), seen, 0); d != "" {
 			return d
